@@ -272,9 +272,13 @@ impl Gossip {
 #[cfg(p2panda_p2panda_verif)]
 impl Gossip {
     /// Verification hook: identity and value of the reference counter stored in the senders map
-    /// for this topic. `Err(())` if the map is write-locked, `Ok(None)` if there is no entry.
-    #[allow(clippy::result_unit_err)]
-    pub fn verif_senders_counter(&self, topic: Topic) -> Result<Option<(usize, usize)>, ()> {
+    /// for this topic (value `None` while the counter is locked by another thread). `Err(())` if
+    /// the map is write-locked, `Ok(None)` if there is no entry.
+    #[allow(clippy::result_unit_err, clippy::type_complexity)]
+    pub fn verif_senders_counter(
+        &self,
+        topic: Topic,
+    ) -> Result<Option<(usize, Option<usize>)>, ()> {
         let senders = self.senders.try_read().map_err(|_| ())?;
         Ok(senders.get(&topic).map(|(_, _, guard)| guard.verif_counter()))
     }
@@ -283,7 +287,7 @@ impl Gossip {
 #[cfg(p2panda_p2panda_verif)]
 impl GossipHandle {
     /// Verification hook: identity and value of the reference counter behind this handle.
-    pub fn verif_counter(&self) -> (usize, usize) {
+    pub fn verif_counter(&self) -> (usize, Option<usize>) {
         self._guard.verif_counter()
     }
 }
@@ -291,15 +295,21 @@ impl GossipHandle {
 #[cfg(p2panda_p2panda_verif)]
 impl GossipSubscription {
     /// Verification hook: identity and value of the reference counter behind this subscription.
-    pub fn verif_counter(&self) -> (usize, usize) {
+    pub fn verif_counter(&self) -> (usize, Option<usize>) {
         self._guard.verif_counter()
     }
 }
 
 #[cfg(p2panda_p2panda_verif)]
 impl TopicDropGuard {
-    fn verif_counter(&self) -> (usize, usize) {
-        (Arc::as_ptr(&self.counter) as *const () as usize, self.counter())
+    /// Identity of the counter and its value, `None` while another thread holds its lock.
+    fn verif_counter(&self) -> (usize, Option<usize>) {
+        let value = match self.counter.try_lock() {
+            Ok(counter) => Some(*counter),
+            Err(std::sync::TryLockError::Poisoned(poisoned)) => Some(*poisoned.into_inner()),
+            Err(std::sync::TryLockError::WouldBlock) => None,
+        };
+        (Arc::as_ptr(&self.counter) as *const () as usize, value)
     }
 }
 
@@ -509,7 +519,7 @@ impl TopicDropGuard {
     }
 
     /// Returns current number of references to this topic.
-    #[cfg_attr(not(any(test, p2panda_p2panda_verif)), allow(dead_code))]
+    #[cfg_attr(not(test), allow(dead_code))]
     fn counter(&self) -> usize {
         *self.lock_counter()
     }
@@ -609,6 +619,9 @@ impl Drop for TopicDropGuard {
                 actor_id = %self.actor_ref.get_id(),
                 "send unsubscribe message"
             );
+
+            #[cfg(p2panda_p2panda_verif)]
+            p2panda_core::verif::point_blocking("gossip.guard.drop.before_unsubscribe");
 
             // Ignore this error, it could be that the actor has already stopped.
             let _ = self
